@@ -571,7 +571,9 @@ class CustomSD(BaseCorrelations):
                         / (1 - np.exp(-w / self.temperature)) + 1j*tau * w)
                 else:
                     inte = self._spectral_density(w) / w ** 2 \
-                        * (np.exp(-1j * w * tau) - 1 + 1j * w * tau)
+                        * (np.exp(-1j * w * tau) \
+                           + np.exp(-(w / self.temperature - 1j*tau * w)) \
+                           - 1 + 1j * w * tau)
                 return inte
 
         integral = _complex_integral(integrand,
